@@ -440,3 +440,139 @@ def run_random(case):  # noqa: C901
     finally:
         iotrace.uninstall()
         common.rmtree(base)
+
+
+# ------------------------------------------------------------------------------------ layer 4: real processes
+def run_multiprocess(case):  # noqa: C901
+    """Worker: writers, readers and one packer as REAL processes running in parallel, with small seeded delays injected at the
+    interposed I/O events.  Cross-checks the threads-for-processes assumption of the scheduler with genuinely concurrent SQLite/FS
+    access.  Acknowledgement is real-time: a writer appends (spec) to its ack log after add_object returned; a reader loads all ack
+    logs right before each call."""
+    import json  # pylint: disable=import-outside-toplevel
+    import time  # pylint: disable=import-outside-toplevel
+
+    base = common.mkscratch('c04mp-')
+    counters, vios = Counter(), []
+    sample = None
+    try:
+        for i in range(case['n']):
+            seed = case['seed'] * 1000 + i
+            rnd = random.Random(seed)
+            arena = Arena.build(os.path.join(base, f'a{i}'), seed=seed % 50, nloose=rnd.randint(4, 8),
+                                pack_target=rnd.choice([600, 4 * 1024 ** 3]))
+            ackdir = os.path.join(base, f'ack{i}')
+            os.makedirs(ackdir)
+            conf = {'W': rnd.randint(1, 3), 'R': rnd.randint(1, 3), 'cycles': rnd.randint(1, 3), 'mode': rnd.choice(['no', 'yes', 'auto']),
+                    'clpp': rnd.random() < 0.5}
+            initial = dict(arena.acked)
+
+            def child(role, idx):
+                crnd = random.Random(seed * 31 + idx * 7 + hash(role) % 1000)
+
+                def plan(_ev):
+                    if crnd.random() < 0.25:
+                        time.sleep(crnd.random() * 0.002)
+
+                iotrace.install([arena.root], plan=plan, audit=False)
+                local = Arena(arena.root)  # same folder, own model
+                local.acked = dict(initial)
+                local.zkeys = list(arena.zkeys)
+                out = {'role': role, 'ops': 0}
+                try:
+                    h = local.handle()
+                    if role == 'P':
+                        local.packer_cycle(h, conf['mode'], conf['clpp'], cycles=conf['cycles'])
+                    elif role == 'W':
+                        with open(os.path.join(ackdir, f'W{idx}.log'), 'a', encoding='utf8') as log:
+                            for _ in range(crnd.randint(2, 6)):
+                                before = set(local.acked)
+                                local.nnew = idx * 1000 + local.nnew
+                                local.client_op(h, crnd.choice(WRITE_KINDS), who=f'W{idx}')
+                                for k in set(local.acked) - before:
+                                    log.write(json.dumps([k, local.acked[k].hex()]) + '\n')
+                                    log.flush()
+                                out['ops'] += 1
+                    else:
+                        for _ in range(crnd.randint(2, 6)):
+                            for name in os.listdir(ackdir):  # everything acknowledged so far (real time)
+                                with open(os.path.join(ackdir, name), encoding='utf8') as log:
+                                    for line in log:
+                                        if line.endswith('\n'):
+                                            k, hx = json.loads(line)
+                                            local.acked[k] = bytes.fromhex(hx)
+                            if crnd.random() < 0.5:
+                                h.close()
+                                h = local.handle()
+                            local.client_op(h, crnd.choice(READ_KINDS), who=f'R{idx}')
+                            out['ops'] += 1
+                    h.close()
+                finally:
+                    iotrace.uninstall()
+                out['problems'] = [list(p) for p in local.problems[:3]]
+                out['counters'] = dict(local.counters)
+                return out
+
+            import multiprocessing as mp  # pylint: disable=import-outside-toplevel
+
+            roles = [('P', 0)] + [('W', j) for j in range(conf['W'])] + [('R', j) for j in range(conf['R'])]
+            ctx = mp.get_context('fork')
+            queue = ctx.SimpleQueue()
+
+            def entry(role, idx):
+                try:
+                    queue.put(child(role, idx))
+                except BaseException as exc:  # noqa: BLE001
+                    import traceback  # pylint: disable=import-outside-toplevel
+
+                    queue.put({'role': role, 'crash': f'{exc!r} :: {traceback.format_exc()[-400:]}'})
+                finally:
+                    os._exit(0)
+
+            procs = [ctx.Process(target=entry, args=r) for r in roles]
+            for p in procs:
+                p.start()
+            results = []
+            deadline = time.time() + 120
+            while len(results) < len(procs) and time.time() < deadline:
+                if not queue.empty():
+                    results.append(queue.get())
+                else:
+                    time.sleep(0.005)
+            for p in procs:
+                p.join(timeout=5)
+                if p.is_alive():
+                    p.kill()
+            if len(results) < len(procs):
+                return common.case_result('mp', False, counters=counters, inconclusive='watchdog: a multi-process run did not finish within 120 s')
+            all_acked = dict(initial)
+            for name in os.listdir(ackdir):
+                with open(os.path.join(ackdir, name), encoding='utf8') as log:
+                    for line in log:
+                        k, hx = json.loads(line)
+                        all_acked[k] = bytes.fromhex(hx)
+            arena.acked = all_acked
+            arena.final_check()
+            counters['multi-process-runs'] += 1
+            counters['processes'] += len(procs)
+            for res in results:
+                if res.get('crash'):
+                    arena.bad(f'concurrent:process-crashed:{res["role"]}', res['crash'])
+                for mech, msg in res.get('problems', []):
+                    arena.bad(mech, msg)
+                counters['multi-process-client-ops'] += res.get('ops', 0)
+                for k, v in (res.get('counters') or {}).items():
+                    counters[k] += v
+            for mech, msg in arena.problems[:2]:
+                vios.append(common.violation(mech, f'[multi-process run seed {seed}: {conf}] {msg}', {'multiprocess': {'seed': case['seed'], 'n': case['n'], 'index': i}}))
+            if sample is None:
+                sample = {'processes': [f'{r}{j}' for r, j in roles], 'conf': conf, 'acknowledged_objects': len(all_acked)}
+            common.rmtree(arena.root)
+            if len(vios) >= 6:
+                break
+        res = common.case_result(sig=f'mp{case["seed"]}', nontrivial=True, counters=counters, violations=vios, sample=sample)
+        res['distinct'] = counters['multi-process-runs']
+        res['evaluations'] = max(1, counters['multi-process-runs'])
+        return res
+    finally:
+        iotrace.uninstall()
+        common.rmtree(base)
